@@ -34,7 +34,7 @@ PROBES = ["sel_empty", "sel_single", "sel_full_filtered", "sel_c-1", "sel_c", "s
           "basin_feature_exported", "tdms_export", "lazy_stack_export", "reexport_of_product", "same_second_export",
           "tables_with_attrs", "user_section", "tsv_export", "tsv_nan_or_inf", "override_existing", "suffix_added",
           "unapplied_filter_edit", "unfiltered_with_active_filter", "polygon_filter", "logs_carried", "tables_carried",
-          "repeated_export_same_object"]
+          "repeated_export_same_object", "ragged_source", "ragged_nothing_filtered_out"]
 COMPONENTS = {
     "real": ["dclab export.hdf5 / export.tsv / store_filtered_feature / yield_filtered_array_stacks", "dclab RTDCWriter",
              "RTDC_Dict, RTDC_HDF5 (+ file basins), RTDC_Hierarchy, RTDC_TDMS readers", "dclab Filter / PolygonFilter",
@@ -75,7 +75,7 @@ def plan(tier):
 
 def make_trace(seed, tier):
     r = seeds.rng(seed, "plan")
-    return {"knobs": {"chunk_bytes": r.choice(CHUNK_KNOBS), "tdms": r.random() < 0.05},
+    return {"knobs": {"chunk_bytes": r.choice(CHUNK_KNOBS), "tdms": r.random() < 0.05, "ragged": r.random() < 0.05},
             "max_ops": r.choice([6, 10, 16]), "ops": None}
 
 
@@ -1294,9 +1294,107 @@ class World:
         ctx.log("o", f"checked tsv {path_out.name} k={k} feats={len(req)}")
 
 
+def run_ragged(trace, ctx):
+    """A file whose features do not all have the same length (e.g. an image series shorter than the scalar features):
+    the export limits the event count to the shortest feature.  Judged: every feature written has the same length, the
+    event count matches it, and the values are those of the selected events among the first l_min.
+    Only non-scalar features are made short (the case export.hdf5 documents and handles); a *scalar* feature shorter
+    than len(ds) makes store_filtered_feature raise IndexError (boolean index of the wrong length) - observed, not
+    judged: the statement does not quantify over files whose scalar features disagree in length."""
+    import dclab
+    import h5py
+    from dclab.rtdc_dataset.writer import RTDCWriter
+
+    def gen_op(r):
+        if not ctx_ops:
+            n = r.choice([5, 9, 23, 40])
+            return {"k": "ragged_new", "n": n, "short": {f: r.randint(1, min(4, n - 1)) for f in r.sample(["image", "mask"], r.randint(1, 2))},
+                    "dseed": r.randrange(1 << 30)}
+        return {"k": "ragged_export", "filtered": r.random() < 0.7, "mask": r.choice(["full", "full", "some", "tail_only"]),
+                "mseed": r.randrange(1 << 30), "feats": r.choice(["all", "all", "scalars+image", "short_last"])}
+    ctx_ops = []
+    src = ctx.scratch / "ragged.rtdc"
+    data = {}
+    nexp = 0
+    while True:
+        op = ctx.next_op(gen_op, max_ops=min(4, trace.get("max_ops", 4)))
+        if op is None:
+            break
+        ctx_ops.append(op)
+        if op["k"] == "ragged_new":
+            if data:
+                continue
+            n = op["n"]
+            m = gen.gen_model(op["dseed"], n, scalars=["area_um", "deform", "pos_x", "time"], image=True, mask=True, n_logs=1)
+            data = {f: (v[:n - op["short"][f]] if f in op["short"] else v) for f, v in m.feats.items()}
+            with RTDCWriter(src, mode="reset") as hw:
+                hw.store_metadata(m.meta)
+                for f, v in data.items():
+                    hw.store_feature(f, v)
+            with h5py.File(src, "r") as hs:
+                # (truth = what the source file stores)
+                data = {f: hs["events"][f][()] for f in data}
+            ctx.probe("ragged_source")
+            ctx.log("a", f"ragged_new n={n} short={sorted(op['short'].items())}")
+            continue
+        if not data:
+            continue
+        nexp += 1
+        out = ctx.scratch / f"ragged_out{nexp}.rtdc"
+        feats = sorted(data)
+        if op["feats"] == "scalars+image":
+            feats = [f for f in feats if f != "mask"]
+        elif op["feats"] == "short_last":
+            feats = sorted(feats, key=lambda f: len(data[f]), reverse=True)
+        lens = [len(data[f]) for f in feats]
+        l_min = min(lens)
+        with warnings.catch_warnings():
+            warnings.simplefilter("ignore")
+            with dclab.new_dataset(src) as ds:
+                n = len(ds)
+                sel = np.ones(n, dtype=bool)
+                rs = seeds.np_rng(op["mseed"], "mask")
+                if op["mask"] == "some":
+                    sel = rs.random(n) < 0.6
+                    sel[0] = True
+                elif op["mask"] == "tail_only":
+                    sel[:] = True
+                    sel[-1] = False
+                if not sel.all():
+                    ds.filter.manual[:] = sel
+                    ds.apply_filter()
+                with ctx.sut("C02.export.raises", sig={"what": "ragged"}):
+                    ds.export.hdf5(out, features=feats, filtered=op["filtered"])
+        eff = (sel if op["filtered"] else np.ones(n, dtype=bool))[:l_min]
+        ctx.checked()
+        ctx.state_ops += 1
+        ctx.state("ragged", op["filtered"], op["mask"], len(set(lens)) > 1)
+        if len(set(lens)) > 1 and eff.all() and op["filtered"]:
+            ctx.probe("ragged_nothing_filtered_out")
+        with h5py.File(out, "r") as h:
+            got_len = {f: h["events"][f].shape[0] for f in h["events"] if isinstance(h["events"][f], h5py.Dataset)}
+            cnt = int(h.attrs.get("experiment:event count", -1))
+            sig = {"what": "ragged", "filtered": bool(op["filtered"]), "all_selected": bool(eff.all())}
+            if len(set(got_len.values())) > 1 or (got_len and cnt != next(iter(got_len.values()))):
+                ctx.violation("C02.count", f"export of a file with feature lengths {dict(zip(feats, lens))} (filtered={op['filtered']}, "
+                                           f"{int(eff.sum())} of the first {l_min} events selected) wrote feature lengths {got_len} "
+                                           f"and event count {cnt}", sig=sig)
+            else:
+                for f in feats:
+                    exp = np.asarray(data[f])[:l_min][eff]
+                    if f not in h["events"] or not eq_nan(np.asarray(h["events"][f][()]), exp):
+                        ctx.violation("C02.values", f"ragged source: exported feature {f} is not the source restricted to the selected "
+                                                    f"events among the first {l_min}", sig=dict(sig, feat=f))
+                        break
+        ctx.log("x", f"ragged_export filtered={op['filtered']} {op['mask']} {op['feats']}", seeds.short_hash(eff))
+    ctx.info["sample"] = {"knobs": trace["knobs"], "ops": ctx_ops[:4], "sources": ["ragged-hdf5"]}
+
+
 def run(trace, ctx):
     import dclab
     seams.set_knob_chunk_bytes(trace["knobs"]["chunk_bytes"])
+    if trace["knobs"].get("ragged"):
+        return run_ragged(trace, ctx)
     dclab.register_temporary_feature(TMP_NS, is_scalar=False)
     dclab.register_temporary_feature(TMP_SC, is_scalar=True)
     w = World(trace, ctx)
